@@ -244,7 +244,9 @@ PROPS.update({
         "modules": ["specs.socket_model", "specs.pystruct", "specs.seqdict", "specs.opaque", "specs.daemon_model", "contracts.serial_symmetry"],
         "contracts": ["Pyro5.serializers.SerializerBase.recreate_classes"] +
                      ["Pyro5.serializers.%s.%s" % (c, m) for c in ("SerpentSerializer", "MarshalSerializer", "JsonSerializer", "MsgpackSerializer")
-                      for m in ("dumps", "dumpsCall", "loads", "loadsCall")],
+                      for m in ("dumps", "dumpsCall", "loads", "loadsCall")] +
+                     ["Pyro5.serializers.MsgpackSerializer.default#long", "Pyro5.serializers.MsgpackSerializer.ext_hook#long"],
+        "lemmas": ["C01:msgpack-long-roundtrip"],
         "harness": "replay/c01.py",
         "explanation": "what Pyro's own code contributes to the value mapping is proved symmetric: recreate_classes equals the structural spec function `recreated` "
                        "(a set / list / tuple comes back as the same container with EVERY element replaced by its own re-creation, a class-tagged dict goes whole and once "
@@ -252,14 +254,16 @@ PROPS.update({
                        "for each of the four serializers dumps and dumpsCall make exactly one library encoder call with the same fixed option set, dumpsCall encodes "
                        "exactly (object, method, vargs, kwargs) unconverted (marshal: every positional and keyword argument through the same `marshallable` conversion "
                        "that dumps applies to a result; absent kwargs stay None), loads and loadsCall make exactly one decoder call with the same fixed option set on "
-                       "exactly the payload, and re-create vargs, kwargs and results with the same function.  The library codecs' own value mapping (lossless core, "
+                       "exactly the payload, and re-create vargs, kwargs and results with the same function; msgpack's `long` extension (integers beyond 64 bit): default(n) is ExtType(0x31, ASCII decimal "
+                       "text of n), ext_hook(0x31, d) is the integer d spells, and (lemma over the two contracts) ext_hook undoes default for every integer.  The library codecs' own value mapping (lossless core, "
                        "tuples as lists, ...), the default()/ext_hook conversions, compression (C06 proves the frame transparent) and the end-to-end positions "
                        "(echo method, batch, stream) are observed by the bounded harness only.",
         "assumptions": ["serpent / json / marshal / msgpack encoders and decoders are uninterpreted functions of (input, options) that may raise; that they invert each other on "
                         "the lossless core is NOT proved (bounded harness: ~2.4k quick / ~37k thorough generated values x 4 serializers x positions, compression on/off)",
                         "decoded literals are plain data of exactly one builtin container type or atoms; UTF-8 encode/decode as inverse partial functions",
-                        "JsonSerializer.default / MsgpackSerializer.default / ext_hook / object_hook are handed to the library by reference; their bodies are covered by "
-                        "the harness (and C04 for object_hook's dict_to_class)"],
+                        "JsonSerializer.default / MsgpackSerializer.default / ext_hook / object_hook are handed to the library by reference; apart from msgpack's integer "
+                        "extension their bodies are covered by the harness (and C04 for object_hook's dict_to_class); int(str(n)) == n and ASCII encode/decode as inverse "
+                        "functions are assumed (validated in replay/c19.py)"],
     },
     "C04": {
         "modules": ["specs.socket_model", "specs.pystruct", "specs.seqdict", "specs.opaque", "specs.daemon_model", "contracts.deserialize"],
